@@ -1,6 +1,6 @@
 SPECIFICATION TokSpec
 CONSTANTS
   MaxItems = 4
-  MaxNum = 7
+  MaxNum = 6
 INVARIANTS StrSound StrComplete StrExact RefIsUtf8 NumInv
 CHECK_DEADLOCK FALSE
